@@ -15,12 +15,12 @@ from mc import core, refcip as R, sim, wire as W
 ID = "C06"
 LEVEL = "model_checking"
 ISOLATE_SHARDS = True        # every shard runs in a forked child of a pristine worker (mc/core.py)
-RULE = ("BFS over canonical session states (alive, registered?, #open connections, tag store), every frame of a 28-frame alphabet "
+RULE = ("BFS over canonical session states (alive, registered?, #open connections, tag store), every frame of a 30-frame alphabet "
         "from every state; all frame sequences up to length N in two deliveries; pipelined runs k=1..64. non-trivial = distinct "
         "(state, frame) / sequences containing a failing or session-ending frame or a write")
-BOUNDS = {"quick": "closure of the state graph (<= 2 open connections); all sequences of length <= 2 over 28 frames + length 3 over a 10-frame "
+BOUNDS = {"quick": "closure of the state graph (<= 2 open connections); all sequences of length <= 2 over 30 frames + length 3 over a 10-frame "
                    "sub-alphabet, x {one per recv, coalesced}; runs k in {1,2,3,8,64}",
-          "thorough": "closure; all sequences of length <= 3 over 28 frames, length 4 over the 8-frame sub-alphabet; runs k = 1..64"}
+          "thorough": "closure; all sequences of length <= 3 over 30 frames, length 4 over the 8-frame sub-alphabet; runs k = 1..64"}
 ASSUMPTIONS = ["the one malformed frame of the alphabet (bad CPF item count) is outside 'well-formed': for it only 'one error frame or a "
                "closed connection' is required (C08's rule)",
                "at most 2 simultaneously open Forward Open connections per session are explored"]
@@ -33,7 +33,7 @@ ADDR = ("127.0.0.1", 10001)
 KINDS = [
     "register", "list_services", "list_identity", "list_interfaces", "legacy",
     "read_ok", "read_range", "write_v1", "write_v0", "write_type", "write_unholdable", "gas", "bundle2", "read_wrapped", "unknown_service", "unroutable_class",
-    "unroutable_instance", "unknown_tag", "fwd_open", "fwd_open_large", "fwd_close", "unit_read", "unit_write", "bad_cpf", "bad_command", "read_session0",
+    "unroutable_instance", "gas_bad_attribute", "sas_bad_size", "unknown_tag", "fwd_open", "fwd_open_large", "fwd_close", "unit_read", "unit_write", "bad_cpf", "bad_command", "read_session0",
     "read_wrong_session", "unregister",
 ]
 SUB10 = ["register", "read_ok", "write_v1", "write_type", "bundle2", "unknown_service", "fwd_open", "unit_read", "bad_command", "unregister"]
@@ -122,6 +122,12 @@ def build(kind, h, ctx):
         q.update(expect="unsupported")
     elif kind == "unroutable_instance":                   # same class and path length as "gas" (2/1/1), an instance that does not exist
         cip = W.get_attribute_single(W.cia_path(2, 9, 1))
+        q.update(expect="unsupported")
+    elif kind == "gas_bad_attribute":                     # a supported service that fails INSIDE the (existing) target object
+        cip = W.get_attribute_single(W.cia_path(2, 1, 99))
+        q.update(expect="unsupported")
+    elif kind == "sas_bad_size":                          # Set Attribute Single carrying 1 byte for a 4-byte attribute
+        cip = W.generic(0x10, W.cia_path(2, 1, 1), b"\x07")
         q.update(expect="unsupported")
     elif kind == "unknown_tag":
         cip = W.read_tag(W.tag_path("nosuch"), 1)
@@ -317,7 +323,7 @@ def shard(acc, item, tier, seed):
             acc.ev()
             bad, a = check_seq(seq, both=True)
             acc.count("transitions", 2 * len(a["applicable"]))
-            if any(k in ("write_v1", "bundle2", "unregister", "bad_command", "unknown_service", "unknown_tag", "unroutable_class", "unroutable_instance", "bad_cpf")
+            if any(k in ("write_v1", "bundle2", "unregister", "bad_command", "unknown_service", "unknown_tag", "unroutable_class", "unroutable_instance", "gas_bad_attribute", "sas_bad_size", "bad_cpf")
                    for k in kinds):
                 acc.ntc()
             acc.outcome("seqlen=%d" % n)
